@@ -4,6 +4,7 @@ import (
 	"fmt"
 	"runtime"
 	"strings"
+	"sync"
 
 	"verifsim/simnet"
 
@@ -123,10 +124,12 @@ func c19Scenario(r *R) {
 		hdr    string
 		hasHdr bool
 		body   string
+		cut    string // "", short-body (fewer bytes than Content-Length, then close), chunked-cut (no final chunk), abort (close without a response)
 	}
 	var plan []ans
 	for i := 0; i < invocations*5; i++ {
-		plan = append(plan, ans{status: []int{200, 200, 200, 204, 304, 404, 500, 201}[f.Draw(8)], hdr: c19HdrVals[f.Draw(len(c19HdrVals))], hasHdr: f.Draw(4) != 0, body: c19Bodies[f.Draw(len(c19Bodies))]})
+		plan = append(plan, ans{status: []int{200, 200, 200, 204, 304, 404, 500, 201}[f.Draw(8)], hdr: c19HdrVals[f.Draw(len(c19HdrVals))], hasHdr: f.Draw(4) != 0, body: c19Bodies[f.Draw(len(c19Bodies))],
+			cut: []string{"", "", "", "", "", "short-body", "chunked-cut", "abort"}[f.Draw(8)]})
 	}
 	// the same scenario over plain HTTP/1.1, over TLS (ssl: true), or shot by the http2/scenario gun at an HTTP/2 target
 	transport := []string{"plain", "plain", "tls", "h2"}[w.Draw(4)]
@@ -142,6 +145,8 @@ func c19Scenario(r *R) {
 		gun["type"] = "http2/scenario"
 	}
 	var tgt *httpTarget
+	var cutMu sync.Mutex // nosim
+	cuts := map[string]int{}
 	res := runHTTPPool(r, httpPoolSpec{
 		Ammo:      map[string]interface{}{"type": "http/scenario", "file": "/ammo/scenario.yaml", "limit": invocations},
 		Gun:       gun,
@@ -157,6 +162,33 @@ func c19Scenario(r *R) {
 			if a.status != 204 && a.status != 304 {
 				rs.Body = []byte(a.body)
 			}
+			cut := a.cut
+			if cut == "abort" && s.Method == "GET" {
+				// (net/http re-sends an idempotent request when a kept-alive connection is closed without an answer;
+				// the answer to a GET is cut inside the body instead)
+				cut = "short-body"
+			}
+			if cut != "" && transport != "h2" && a.status != 204 && a.status != 304 {
+				var raw strings.Builder
+				fmt.Fprintf(&raw, "HTTP/1.1 %d Status\r\n", a.status)
+				if a.hasHdr {
+					fmt.Fprintf(&raw, "X-Val: %s\r\n", a.hdr)
+				}
+				body := strings.ToValidUTF8(a.body, "?")
+				switch cut {
+				case "short-body":
+					fmt.Fprintf(&raw, "Content-Length: %d\r\n\r\n%s", len(body)+50, body)
+				case "chunked-cut":
+					fmt.Fprintf(&raw, "Transfer-Encoding: chunked\r\n\r\n%x\r\n%s\r\n", len(body)+1, body+"~")
+				}
+				rs.Abort = true
+				if cut != "abort" {
+					rs.Raw = []byte(raw.String())
+				}
+				cutMu.Lock()
+				cuts[cut]++
+				cutMu.Unlock()
+			}
 			return rs
 		})
 	})
@@ -166,6 +198,11 @@ func c19Scenario(r *R) {
 	}
 	for _, a := range plan {
 		r.Note(fmt.Sprintf("scenario-answer/status-%d", a.status))
+	}
+	for k, n := range cuts {
+		for i := 0; i < n; i++ {
+			r.Fault("target:"+k, true)
+		}
 	}
 	switch res.Sim.Class {
 	case simrt.Crash:
@@ -202,46 +239,25 @@ func c19Scenario(r *R) {
 		}
 		r.Fail("sample-count/scenario", "%d step requests reached the target in %d invocations, %d samples were reported; samples %v; requests %v", len(seen), invocations, len(res.Samples), tags, uris)
 	}
-	// every invocation was attempted: each one starts with /hdr (sc) or /jp (sc2); sc2's xp(2) never starts one
+	// every invocation was attempted (the instances went on with the next ammo): the first step of an invocation always
+	// yields a sample, tagged sc.hdr or sc2.jp (with |__EMPTY__ appended when it failed); no other step carries these tags
 	starts := 0
-	for i, s := range seen {
-		if strings.HasPrefix(s.URI, "/hdr") && (i == 0 || !strings.HasPrefix(seen[i-1].URI, "/xp") || inst > 1) {
+	for _, sm := range res.Samples {
+		t := strings.TrimSuffix(sm.Tags, "|__EMPTY__")
+		if t == "sc.hdr" || t == "sc2.jp" {
 			starts++
 		}
 	}
-	if inst == 1 {
-		// sequential invocations: count them exactly from the log (sc: hdr first; sc2: jp first, hdr last)
-		n := 0
-		for i := 0; i < len(seen); {
-			n++
-			switch {
-			case strings.HasPrefix(seen[i].URI, "/hdr"):
-				i++
-				for _, want := range []string{"/xp", "/jp", "/as"} {
-					if i < len(seen) && strings.HasPrefix(seen[i].URI, want) {
-						i++
-					} else {
-						break
-					}
-				}
-			case strings.HasPrefix(seen[i].URI, "/jp"):
-				i++
-				for _, want := range []string{"/xp", "/xp", "/hdr"} {
-					if i < len(seen) && strings.HasPrefix(seen[i].URI, want) {
-						i++
-					} else {
-						break
-					}
-				}
-			default:
-				i++
-			}
+	if starts != invocations {
+		var uris, tags []string
+		for _, sq := range seen {
+			uris = append(uris, sq.Method+" "+sq.URI)
 		}
-		if n < invocations {
-			r.Fail("invocations-not-attempted/scenario", "%d scenario invocations were to be shot by one instance, the target's log shows %d", invocations, n)
+		for _, sm := range res.Samples {
+			tags = append(tags, fmt.Sprintf("%s/%d/%s", sm.Tags, sm.Proto, clip(sm.Err)))
 		}
+		r.Fail("invocations-not-attempted/scenario", "%d scenario invocations were to be shot by %d instance(s), %d first-step samples were reported; requests %v; samples %v", invocations, inst, starts, uris, tags)
 	}
-	_ = starts
 }
 
 // ---- gRPC guns against every status code, handlers slower than the timeout and connections reset in flight ----
